@@ -354,7 +354,14 @@ def c4_handover(fb, rep, reach):
                     if f.sname == 'EngineMainThread::waitStop':
                         # after the while(search) wait
                         wl = [ev for _, _, ev in f.events() if ev.get('k') == 'call' and cname(ev).startswith('std::condition_variable::wait')]
-                        okw = bool(wl) and all(f.path_avoiding((f.entry, -1), lambda x, _e=e: x is _e, lambda x: x is not None and x.get('k') == 'call' and cname(x).split('::')[-1] == 'operator bool' and ap(x.get('recv')) == 'this.search') is None for _ in [0])
+                        def tests_search(x):
+                            if x is None or x.get('k') != 'call':
+                                return False
+                            if cname(x).split('::')[-1] == 'operator bool' and ap(x.get('recv')) == 'this.search':
+                                return True
+                            # predicate overload: wait(L, [this]{ return !search; })
+                            return cname(x).startswith('std::condition_variable::wait') and any('this.search' in R.this_fields_read(l) for a in x.get('args', []) for l in R.lambdas_in_tree(fb, a))
+                        okw = bool(wl) and f.path_avoiding((f.entry, -1), lambda x, _e=e: x is _e, tests_search) is None
                         rep.ob(clause, 'K2 publication', 'waitStop touches %s only after it tested the search flag under the mutex' % fl, okw, R.site(f, e), '', f.sname)
                         continue
                     rs = {r for r, s in reach.items() if f.key in s and r != 'POOL'}
